@@ -2,6 +2,7 @@
 pub mod annot;
 pub mod faultsave;
 pub mod grid;
+pub mod password;
 pub mod style;
 pub mod text;
 pub mod wb;
